@@ -630,6 +630,10 @@ func (fr *fileReader) ReadAt(p []byte, off int64) (n int, err error) {
 		if e.Offset != fr.r.toc.Entries[ent.chunkTopIndex].Offset {
 			break
 		}
+		if e.Type == "reg" && e.Size == 0 {
+			// An empty file has no payload in this stream (and no InnerOffset).
+			continue
+		}
 		if in, err := io.CopyN(io.Discard, dr, e.InnerOffset-nr); err != nil || in != e.InnerOffset-nr {
 			return 0, fmt.Errorf("discard of remaining %d bytes != %v, %v", e.InnerOffset-nr, in, err)
 		}
